@@ -229,9 +229,9 @@ fn main() {
         run.finish();
     }
 
-    let bound: u32 = run.tier.pick(2, 3);
+    let bound: u32 = run.tier.pick(1, 3);
     let per_scenario = Duration::from_secs_f64(run.budget_s / scenarios.len() as f64);
-    let max_execs: u64 = run.tier.pick(250, 100_000);
+    let max_execs: u64 = 1_000_000;
     let mut completed: Vec<Json> = Vec::new();
     for scenario in &scenarios {
         let deadline = Instant::now() + per_scenario;
